@@ -291,6 +291,21 @@ fn main() {
     }
     for (v, s, name) in [(KeyVersion::V4, 1u64, "v4-with-subkey"), (KeyVersion::V6, 2, "v6-with-subkey")] { keys.push((name.to_string(), gen_key_with_subkey(v, s))); }
 
+    // the same keys as read from the legacy (old-format) framing other implementations export
+    let mut old_keys: Vec<(String, SignedSecretKey)> = Vec::new();
+    for (name, sk) in &keys {
+        let Ok(w) = sk.to_bytes() else { continue; };
+        let Some(ps) = split_packets(&w) else { continue; };
+        let mut o = Vec::new();
+        for (tag, _, _, body) in ps {
+            let n = body.len();
+            if n < 256 { o.push(0x80 | (tag << 2)); o.push(n as u8); } else if n < 65536 { o.push(0x80 | (tag << 2) | 1); o.extend((n as u16).to_be_bytes()); } else { o.push(0x80 | (tag << 2) | 2); o.extend((n as u32).to_be_bytes()); }
+            o.extend(body);
+        }
+        if let Ok(k) = SignedSecretKey::from_bytes(&o[..]) { old_keys.push((format!("{name}-oldfmt"), k)); }
+    }
+    keys.extend(old_keys);
+
     for (name, sk) in &keys {
         cx.object(&format!("{name} secret"), sk, |b| SignedSecretKey::from_bytes(b).ok(), &format!("key-{name}"));
         let pk = SignedPublicKey::from(sk.clone());
